@@ -1,6 +1,6 @@
 (** C14 — Modular reduction kernels are correct on their whole documented domain.
     This file holds only the property theorems, each closed by [exact] of a lemma proved in PReduce.v. *)
-From DV Require Import Base MReduce PReduce.
+From DV Require Import Base MReduce GenK PReduce PSrcReduce.
 
 Theorem C14_montgomery_reduce : forall a : Z,
   - 2 ^ 31 * Q <= a < 2 ^ 31 * Q ->
@@ -26,6 +26,21 @@ Print Assumptions C14_caddq.
 Theorem C14_qinv : (Q * QINV) mod 2 ^ 32 = 1.
 Proof. exact qinv_ok. Qed.
 Print Assumptions C14_qinv.
+
+(** The same, stated about the text of /repo/src/reduce.rs as the translator reads it on this run (GenK.v). *)
+Theorem C14_source_montgomery_reduce : forall a : Z, - 2 ^ 31 * Q <= a < 2 ^ 31 * Q ->
+  exists r, src_montgomery_reduce a = Ok r /\ (r * 2 ^ 32) mod Q = a mod Q /\ - Q < r < Q.
+Proof. exact src_mont_ok. Qed.
+Print Assumptions C14_source_montgomery_reduce.
+
+Theorem C14_source_reduce32 : forall a : Z, - 2 ^ 31 <= a <= 2 ^ 31 - 2 ^ 22 - 1 ->
+  exists r, src_reduce32 a = Ok r /\ r mod Q = a mod Q /\ -6283009 <= r <= 6283008.
+Proof. exact src_reduce32_spec. Qed.
+Print Assumptions C14_source_reduce32.
+
+Theorem C14_source_caddq : forall a : Z, - Q < a < Q -> src_caddq a = Ok (a mod Q).
+Proof. exact src_caddq_spec. Qed.
+Print Assumptions C14_source_caddq.
 
 (** Non-vacuity: the hypotheses are inhabited and the functions compute (repository vector a = 23,
     both domain edges). *)
